@@ -341,16 +341,33 @@ func runC15(c *Ctx) {
 			facts["ihc"] = "absent"
 		}
 		now := time.Now().Unix()
-		if ts.exp != "absent" {
-			var d int64
-			fmt.Sscan(ts.exp, &d)
-			cl["exp"] = now + d
+		// a claim value: seconds relative to now; or a form that is no NumericDate (D35): the number in quotes
+		// ("str:<rel>"), a number beyond any time ("1e19", "2p63"), null
+		claimTime := func(name, spec string) {
+			switch {
+			case spec == "absent":
+			case strings.HasPrefix(spec, "str:"):
+				var d int64
+				fmt.Sscan(spec[4:], &d)
+				cl[name] = fmt.Sprint(now + d)
+				facts[name] = "malformed"
+			case spec == "1e19":
+				cl[name] = 1e19
+				facts[name] = "malformed"
+			case spec == "2p63":
+				cl[name] = float64(1 << 63)
+				facts[name] = "malformed"
+			case spec == "null":
+				cl[name] = nil
+				facts[name] = "malformed"
+			default:
+				var d int64
+				fmt.Sscan(spec, &d)
+				cl[name] = now + d
+			}
 		}
-		if ts.nbf != "absent" {
-			var d int64
-			fmt.Sscan(ts.nbf, &d)
-			cl["nbf"] = now + d
-		}
+		claimTime("exp", ts.exp)
+		claimTime("nbf", ts.nbf)
 		hb, _ := json.Marshal(hdr)
 		cb, _ := json.Marshal(cl)
 		input := b64(hb) + "." + b64(cb)
@@ -492,6 +509,18 @@ func runC15(c *Ctx) {
 			ts.nbf, why = []string{"5", "3600"}[r.Intn(2)], "not-yet-valid"
 		case 22:
 			ts.exp, ts.nbf, why = "absent", "absent", "no-exp-nbf"
+			if r.Intn(2) == 0 { // the single aspect changed is the *form* of exp or nbf: in quotes, beyond any time, null
+				ts = base()
+				form := []string{"str:3600", "str:-60", "str:-1700000000", "1e19", "2p63", "null"}[r.Intn(6)]
+				if r.Bool() {
+					ts.exp, why = form, "exp-malformed"
+				} else {
+					if form == "str:3600" {
+						form = "str:99999999"
+					}
+					ts.nbf, why = form, "nbf-malformed"
+				}
+			}
 		case 23:
 			ts.signWith, why = 2, "signed-by-unpublished-key"
 			ts.kid = "ok" // kid k2, not in the published set
